@@ -624,6 +624,130 @@ func caseBody(fd *ast.FuncDecl, ty string) []ast.Stmt {
 	return res
 }
 
+// ---------------------------------------------------------------- enforcement runs on every evaluation
+
+// enforcement functions: a call of one of these IS the test of an enforcement point
+var enforcementFns = map[string]bool{
+	"isCallerInClassHierarchy":             true,
+	"ValidateConcreteClassAbstractMethods": true,
+	"IsAbstractClassStmt":                  true,
+}
+
+// isTypeTest: `X.Is(v)` (data.Types.Is)
+func isTypeTest(c *ast.CallExpr) bool {
+	sel, ok := c.Fun.(*ast.SelectorExpr)
+	return ok && sel.Sel.Name == "Is" && len(c.Args) == 1
+}
+
+// memoScan: an enforcement call that sits inside a function literal does not run as part of the evaluation
+// that contains it (it is handed to sync.Once.Do, a cache filler, a goroutine, a defer …): the test may be
+// skipped on later evaluations. Every such call is a shape note. `typeTests`: the functions in which `X.Is(v)`
+// is the declared-type test of a boundary.
+func memoScan(files map[string]*ast.File, typeTests map[string]bool) {
+	var names []string
+	for n := range files {
+		names = append(names, n)
+	}
+	sort.Strings(names)
+	for _, file := range names {
+		for _, d := range files[file].Decls {
+			fd, ok := d.(*ast.FuncDecl)
+			if !ok || fd.Body == nil {
+				continue
+			}
+			fname := fd.Name.Name
+			if fd.Recv != nil && len(fd.Recv.List) > 0 {
+				fname = ex.TypeString(fd.Recv.List[0].Type) + "." + fname
+			}
+			var stack []ast.Node
+			ast.Inspect(fd.Body, func(n ast.Node) bool {
+				if n == nil {
+					stack = stack[:len(stack)-1]
+					return true
+				}
+				stack = append(stack, n)
+				c, ok := n.(*ast.CallExpr)
+				if !ok {
+					return true
+				}
+				callee := exprString(c.Fun)
+				if i := strings.LastIndexByte(callee, '.'); i >= 0 && !isTypeTest(c) {
+					callee = callee[i+1:]
+				}
+				if !(enforcementFns[callee] || (isTypeTest(c) && typeTests[fname])) {
+					return true
+				}
+				for _, a := range stack {
+					if _, lit := a.(*ast.FuncLit); lit {
+						note("%s %s: %s is called inside a function literal (deferred or memoised enforcement)", file, fname, callee)
+						break
+					}
+				}
+				return true
+			})
+		}
+	}
+}
+
+// instantiation glue: does `new` run the abstract test and the completeness validation on every call
+//
+//	createInstanceFromClassStmt: the first statement is `if IsAbstractClassStmt(stmt) { … return nil, <error> }`
+//	ClassStatement.GetValue:     the first statement is `if !c.IsAbstract { if acl := Validate…(…); acl != nil { return nil, acl } }`
+//	                             and `data.NewClassValue` comes after it
+func instGlue(files map[string]*ast.File) (abstractFirst, validateEvery bool) {
+	if f := files["new.go"]; f != nil {
+		if fd := ex.FuncDecl(f, "", "createInstanceFromClassStmt"); fd != nil && len(fd.Body.List) > 0 {
+			if is, ok := fd.Body.List[0].(*ast.IfStmt); ok && is.Init == nil && is.Else == nil {
+				if c, ok := is.Cond.(*ast.CallExpr); ok && exprString(c.Fun) == "IsAbstractClassStmt" && returnsError(is.Body.List) {
+					abstractFirst = true
+				}
+			}
+		}
+	}
+	if !abstractFirst {
+		note("new.go createInstanceFromClassStmt: the abstract-class test is not the first statement")
+	}
+	if f := files["class.go"]; f != nil {
+		if fd := ex.FuncDecl(f, "*ClassStatement", "GetValue"); fd != nil && len(fd.Body.List) > 0 {
+			if outer, ok := fd.Body.List[0].(*ast.IfStmt); ok && outer.Init == nil && outer.Else == nil &&
+				exprString(outer.Cond) == "!c.IsAbstract" && len(outer.Body.List) == 1 {
+				if inner, ok := outer.Body.List[0].(*ast.IfStmt); ok && inner.Else == nil {
+					if as, ok := inner.Init.(*ast.AssignStmt); ok && len(as.Lhs) == 1 && len(as.Rhs) == 1 {
+						v := exprString(as.Lhs[0])
+						c, isCall := as.Rhs[0].(*ast.CallExpr)
+						if isCall && exprString(c.Fun) == "ValidateConcreteClassAbstractMethods" &&
+							exprString(inner.Cond) == "<*ast.BinaryExpr>" && len(inner.Body.List) == 1 {
+							be := inner.Cond.(*ast.BinaryExpr)
+							ret, isRet := inner.Body.List[0].(*ast.ReturnStmt)
+							if be.Op == token.NEQ && exprString(be.X) == v && exprString(be.Y) == "nil" &&
+								isRet && len(ret.Results) == 2 && exprString(ret.Results[1]) == v {
+								validateEvery = true
+							}
+						}
+					}
+				}
+				// the object is created after the validation
+				if validateEvery {
+					created := token.NoPos
+					ast.Inspect(fd.Body, func(n ast.Node) bool {
+						if c, ok := n.(*ast.CallExpr); ok && exprString(c.Fun) == "data.NewClassValue" && created == token.NoPos {
+							created = c.Pos()
+						}
+						return true
+					})
+					if created != token.NoPos && created < outer.End() {
+						validateEvery = false
+					}
+				}
+			}
+		}
+	}
+	if !validateEvery {
+		note("class.go ClassStatement.GetValue: the completeness validation is not run, tested and returned as the first statement of every call")
+	}
+	return
+}
+
 // ---------------------------------------------------------------- main
 
 func main() {
@@ -855,9 +979,16 @@ func main() {
 	}
 	bounds = append(bounds, bentry{"promotedParam", promoted})
 
+	// ---- enforcement on every evaluation
+	memoScan(files, map[string]bool{
+		"*CallObjectProperty.SetValue": true, "*CallObjectDynamicProperty.SetValue": true, "*Parameter.SetValue": true,
+		"*FunctionStatement.Call": true, "*ClassMethod.Call": true, "callMethodParams": true, "paramSetValue": true,
+	})
+	abstractFirst, validateEvery := instGlue(files)
+
 	// ---- emit
 	var sb strings.Builder
-	sb.WriteString("import Model.Access\nimport Model.Types\n")
+	sb.WriteString("import Model.Access\nimport Model.Types\nimport Model.Inst\n")
 	sb.WriteString("/-! Which modifier test each arm of each access node performs, and what each typed boundary does with the\ndeclared type (see `extract/c07/main.go` for the syntactic shapes that are recognised). -/\n")
 	sb.WriteString("namespace Generated.C07Access\nopen Model.Access Model.Types\n\n")
 	sb.WriteString("def table : Table := fun p r =>\n  match p, r with\n")
@@ -868,6 +999,7 @@ func main() {
 	for _, b := range bounds {
 		fmt.Fprintf(&sb, "  | .%s => %s\n", b.name, b.kind)
 	}
+	fmt.Fprintf(&sb, "\n/-- does `new` run the abstract test first and the completeness validation on every call -/\ndef instGlue : Model.Inst.Glue := ⟨%v, %v⟩\n", abstractFirst, validateEvery)
 	sort.Strings(notes)
 	sb.WriteString("\n/-- where the translator did not find the shape it expects -/\ndef shapeNotes : List String := [")
 	for i, n := range notes {
